@@ -110,14 +110,14 @@ def check(ann, stitch):
                     keys = list(json.loads(p[dprop]).keys())
                     if keys != [did]:
                         problems.append("%s: node %s carries delegation entries %s" % (did, nid, keys))
-                    elif json.loads(p[dprop])[did] != json.loads(onodes[nid][dprop])[did]:
+                    elif json.loads(p[dprop])[did] != json.loads(onodes[nid].get(dprop) or '{}').get(did):
                         problems.append("%s: delegation entry of %s altered" % (did, nid))
         # every resource delegated to did is present with its entry
         for k, (li, ci, pooled) in ann.items():
             nid = 'id-' + k
             for dprop, di in ((LD, li), (CD, ci)):
                 if DIDS[di] == did:
-                    if nid not in nodes or not nodes[nid].get(dprop) or did not in json.loads(nodes[nid][dprop]):
+                    if nid not in nodes or not nodes[nid].get(dprop) or did not in json.loads(nodes[nid][dprop] or '{}'):
                         problems.append("%s: delegated resource %s (%s) missing" % (did, nid, dprop))
                 elif nid in nodes and nodes[nid].get(dprop):
                     problems.append("%s: node %s carries a foreign %s" % (did, nid, dprop))
@@ -132,7 +132,16 @@ def check(ann, stitch):
             adj.setdefault(a, []).append(b)
             adj.setdefault(b, []).append(a)
         for nid in kept:
-            if onodes[nid]['Class'] != 'ConnectionPoint' or not any(DIDS[x] == did for x in ann.get(nid[3:], (0, 0, 0))[:2]):
+            if onodes[nid]['Class'] != 'ConnectionPoint':
+                continue
+            # every kept interface (delegated or pulled in as a peer) keeps its owning service and that service's owner
+            for svc in [x for x in adj.get(nid, []) if onodes[x]['Class'] == 'NetworkService']:
+                if svc not in kept:
+                    problems.append("%s: owning service of kept interface %s dropped" % (did, nid))
+                for own in [x for x in adj.get(svc, []) if onodes[x]['Class'] in ('NetworkNode', 'Component')]:
+                    if own not in kept:
+                        problems.append("%s: owner of the service of kept interface %s dropped" % (did, nid))
+            if not any(DIDS[x] == did for x in ann.get(nid[3:], (0, 0, 0))[:2]):
                 continue
             for l in [x for x in adj.get(nid, []) if onodes[x]['Class'] == 'Link']:
                 if l not in kept:
